@@ -901,6 +901,25 @@ func genC06(prop, tier string, r *rand.Rand) *Scn {
 	if r.IntN(8) == 0 {
 		return reentrantBatch(g, r)
 	}
+	if r.IntN(8) == 0 {
+		// equal values at several positions of the item list are items of their
+		// own: each is processed, each gets the result of its own processing
+		g.failP = 0
+		k := 2 + r.IntN(6)
+		n := g.rootBatch(k, 1, 0, 0, r.IntN(4) == 0, []string{"results", "anys", "ints", "strings"})
+		n.HasFb = false
+		for i := range n.Visits[0].Items {
+			n.Visits[0].Items[i] = Item{Pay: pick(r, []string{"int", "str"}), Exec: []Outcome{{Pay: g.pay()}}}
+			if i > 0 && r.IntN(2) == 0 {
+				d := r.IntN(i)
+				if n.Visits[0].Items[d].DupOf == 0 {
+					n.Visits[0].Items[i].DupOf = d + 1
+					n.Visits[0].Items[i].Pay = n.Visits[0].Items[d].Pay
+				}
+			}
+		}
+		return g.sc
+	}
 	n := g.rootBatch(batchSize(r, 64), budget, pick(r, []int{0, 0, 10}), conc, stop, []string{"results", "anys", "ints", "strings", "single", "nil"})
 	g.timing(n)
 	if r.IntN(7) == 0 && len(n.Visits[0].Items) > 0 {
